@@ -10,7 +10,12 @@ package main
 // Oracle: the decoder reports the same record type and an equal value (nil and
 // empty slices identified), and it consumed exactly the bytes that were
 // written. Sequences of records (optionally behind a header) must decode to
-// the same sequence and leave the reader at EOF.
+// the same sequence and leave the reader at EOF. A value the writer refuses
+// must leave nothing in the stream (the peer would read a torn record).
+// Length-limited fields are generated at their limits measured in bytes and in
+// characters, with characters of 1, 2, 3 and 4 bytes.
+// The stage "concurrent" (c18conc.go) runs many sessions of one process at
+// overlapping times, each with its own values and its own stream.
 
 import (
 	"bytes"
@@ -441,6 +446,71 @@ func c18HasParent(p string) bool {
 	return false
 }
 
+
+// ---- multi-byte characters at the length limits --------------------------------
+//
+// Every length-limited field is limited in BYTES on the wire. A value can be
+// measured in bytes or in characters; the two differ exactly when characters
+// take 2, 3 or 4 bytes. c18WideChars[w] are valid UTF-8 characters of w bytes.
+var c18WideChars = map[int][]string{
+	1: {"a", "b", "z", "0", "_", "Q"},
+	2: {"é", "ß", "Ω", "я", "ü", "ñ"},
+	3: {"日", "本", "語", "€", "한", "ก"},
+	4: {"🙂", "𝄞", "𠜎", "🚀", "𐍈"},
+}
+
+var c18Widths = []int{1, 2, 3, 4, 0} // 0 = mixed widths
+
+func c18WidthLabel(w int) string {
+	if w == 0 {
+		return "mixed"
+	}
+	return strconv.Itoa(w)
+}
+
+func c18WideChar(r *vk.Rng, w int) string {
+	if w == 0 {
+		w = 1 + r.Intn(4)
+	}
+	a := c18WideChars[w]
+	return a[r.Intn(len(a))]
+}
+
+// c18WideText returns a text of exactly n bytes (measure "bytes") or exactly n
+// characters (measure "runes") made of w-byte characters; with slashes it is a
+// relative path with components of at most 200 bytes. A byte-measured text
+// whose length is not a multiple of w is filled up with ASCII.
+func c18WideText(r *vk.Rng, w int, measure string, n int, slashes bool) string {
+	var sb strings.Builder
+	runes, comp, compMax := 0, 0, 1+r.Intn(200)
+	size := func() int {
+		if measure == "runes" {
+			return runes
+		}
+		return sb.Len()
+	}
+	for size() < n {
+		if slashes && comp >= compMax && size() < n-1 {
+			sb.WriteByte('/')
+			runes++
+			comp, compMax = 0, 1+r.Intn(200)
+			continue
+		}
+		c := c18WideChar(r, w)
+		if measure == "bytes" && sb.Len()+len(c) > n {
+			c = "a"
+		}
+		sb.WriteString(c)
+		runes++
+		comp += len(c)
+	}
+	return sb.String()
+}
+
+func c18WidePath(r *vk.Rng, w int, measure string, n int) string {
+	return c18WideText(r, w, measure, n, true)
+}
+
 func c18U64(r *vk.Rng) uint64 {
 	switch r.Intn(8) {
 	case 0:
@@ -604,10 +674,20 @@ func c18Random(r *vk.Rng, kind string, small bool) c18Rec {
 	}
 	switch kind {
 	case kFileBegin:
-		class := c18NameClasses[r.Intn(len(c18NameClasses))]
-		n := 1 + c18Len(r, 1023, 300)
-		rec.Class = "rand/" + class
-		rec.V = transfer.FileBegin{RelPath: c18Path(r, class, n), FileSize: c18U64(r), ChunkSize: c18U32(r), StreamID: c18U64(r),
+		var path string
+		if r.Intn(4) == 0 { // multi-byte characters, length drawn in bytes or in characters up to one past the limit
+			w := c18Widths[r.Intn(len(c18Widths))]
+			measure := []string{"bytes", "runes"}[r.Intn(2)]
+			n := 1 + c18Len(r, transfer.VerifC18MaxRelPathLength, 400)
+			rec.Class = "rand/wide-w=" + c18WidthLabel(w) + "/" + measure
+			path = c18WidePath(r, w, measure, n)
+		} else {
+			class := c18NameClasses[r.Intn(len(c18NameClasses))]
+			n := 1 + c18Len(r, 1023, 300)
+			rec.Class = "rand/" + class
+			path = c18Path(r, class, n)
+		}
+		rec.V = transfer.FileBegin{RelPath: path, FileSize: c18U64(r), ChunkSize: c18U32(r), StreamID: c18U64(r),
 			HashAlg: byte(r.U64()), StripeIndex: c18U16(r), StripeCount: c18U16(r), StripeStart: c18U32(r), StripeChunks: c18U32(r)}
 	case kCredit:
 		rec.V = transfer.Credit{StreamID: c18U64(r), Credits: c18U32(r)}
@@ -714,6 +794,27 @@ func c18Boundaries(r *vk.Rng) []c18Rec {
 	maxPath.RelPath = c18Path(r, "plain", 1024)
 	add(kFileBegin, "path=1024+numeric=max", maxPath)
 
+	// FileBegin paths of multi-byte characters around the limit, the length measured in bytes and in
+	// characters (the wire limit is in bytes: whatever the writer accepts must come back identically)
+	lim := transfer.VerifC18MaxRelPathLength
+	for _, w := range c18Widths {
+		for _, n := range []int{lim - 1, lim, lim + 1} {
+			for _, measure := range []string{"bytes", "runes"} {
+				fb := transfer.FileBegin{RelPath: c18WidePath(r, w, measure, n), FileSize: c18U64(r), ChunkSize: c18U32(r), StreamID: c18U64(r)}
+				add(kFileBegin, fmt.Sprintf("path-%s=%d/w=%s", measure, n, c18WidthLabel(w)), fb)
+			}
+		}
+		if w >= 2 { // the character counts whose byte length straddles the limit
+			for _, n := range []int{lim / w, lim/w + 1} {
+				fb := transfer.FileBegin{RelPath: c18WidePath(r, w, "runes", n), FileSize: c18U64(r), ChunkSize: c18U32(r), StreamID: c18U64(r)}
+				add(kFileBegin, fmt.Sprintf("path-runes=%d/w=%s", n, c18WidthLabel(w)), fb)
+			}
+		}
+		wideMax := maxFB
+		wideMax.RelPath = c18WidePath(r, w, "bytes", lim)
+		add(kFileBegin, fmt.Sprintf("path-bytes=%d/w=%s+numeric=max", lim, c18WidthLabel(w)), wideMax)
+	}
+
 	// Credit / FileEnd / DataStreams / End
 	add(kCredit, "zero", transfer.Credit{})
 	add(kCredit, "max", transfer.Credit{StreamID: math.MaxUint64, Credits: math.MaxUint32})
@@ -744,6 +845,15 @@ func c18Boundaries(r *vk.Rng) []c18Rec {
 	for _, n := range []int{0, 1, 2, 255, 256, 65534, 65535} {
 		for _, ok := range []bool{true, false} {
 			add(kFileDone, fmt.Sprintf("err=%d/ok=%v", n, ok), transfer.FileDone{StreamID: c18U64(r), OK: ok, ErrMsg: c18Text(r, n)})
+		}
+	}
+	for _, w := range c18Widths[1:] { // 16-bit texts made of multi-byte characters, at the byte limit
+		for _, n := range []int{65534, 65535} {
+			wl := c18WidthLabel(w)
+			add(kFileDone, fmt.Sprintf("err-bytes=%d/w=%s", n, wl), transfer.FileDone{StreamID: c18U64(r), OK: n%2 == 0, ErrMsg: c18WideText(r, w, "bytes", n, false)})
+			add(kResumeReq, fmt.Sprintf("id-bytes=%d/w=%s", n, wl), transfer.ResumeRequest{FileID: c18WideText(r, w, "bytes", n, false), StreamID: c18U64(r)})
+			add(kResume, fmt.Sprintf("id-bytes=%d/w=%s/bitmap=3", n, wl), transfer.FileResumeInfo{FileID: c18WideText(r, w, "bytes", n, false), StreamID: c18U64(r),
+				TotalChunks: c18U32(r), Bitmap: []byte{1, 2, 3}, LastVerifiedChunk: c18U32(r), LastVerifiedHash: c18U64(r)})
 		}
 	}
 	add(kFileDone, "err=65535/ff+id=max", transfer.FileDone{StreamID: math.MaxUint64, OK: false, ErrMsg: strings.Repeat("\xff", 65535)})
@@ -784,6 +894,15 @@ func c18Boundaries(r *vk.Rng) []c18Rec {
 			add(kHeader, fmt.Sprintf("items=%s/%s", lbl, class), c18Manifest(r, class, items, n < 0))
 		}
 	}
+	for _, w := range c18Widths[1:] { // manifest names of multi-byte characters at the path limit (the header itself has no path limit)
+		for _, measure := range []string{"bytes", "runes"} {
+			m := manifest.Manifest{Root: c18WideText(r, w, measure, 255, false), TotalBytes: c18I64(r), FileCount: 4, FolderCount: 1}
+			for _, n := range []int{lim - 1, lim, lim + 1, 1} {
+				m.Items = append(m.Items, manifest.FileItem{RelPath: c18WidePath(r, w, measure, n), Size: c18I64(r), ModTime: c18I64(r), ID: hex.EncodeToString(r.Bytes(8))})
+			}
+			add(kHeader, fmt.Sprintf("items=4/path-%s=%d/w=%s", measure, lim, c18WidthLabel(w)), m)
+		}
+	}
 	add(kHeader, "zero", manifest.Manifest{})
 	add(kHeader, "numeric=max", manifest.Manifest{Root: "r", Items: []manifest.FileItem{{RelPath: "f", Size: math.MaxInt64, ModTime: math.MaxInt64, ID: "0123456789abcdef"}},
 		TotalBytes: math.MaxInt64, FileCount: math.MaxInt, FolderCount: math.MaxInt})
@@ -814,6 +933,10 @@ type c18Stats struct {
 	NameClasses map[string]int          `json:"name_classes"`
 	ReadModes   map[string]int          `json:"read_modes"`
 	Rejected    map[string]int          `json:"rejected"`
+	// RejectedClean: refused by the writer with nothing written to the stream.
+	RejectedClean map[string]int `json:"rejected_clean"`
+	// PathLimit: FileBegin paths by (widest character, byte length vs limit, character count vs limit) -> outcome -> count
+	PathLimit map[string]map[string]int `json:"path_limit"`
 	UTF8        map[string]int          `json:"utf8"`
 	SeqLens     map[int]int             `json:"seq_lens"`
 	SeqRecords  int                     `json:"seq_records"`
@@ -826,7 +949,39 @@ type c18Stats struct {
 
 func newC18Stats() *c18Stats {
 	return &c18Stats{PerKind: map[string]*c18KindStat{}, Boundaries: map[string]int{}, NameClasses: map[string]int{}, ReadModes: map[string]int{},
-		Rejected: map[string]int{}, UTF8: map[string]int{}, SeqLens: map[int]int{}}
+		Rejected: map[string]int{}, RejectedClean: map[string]int{}, PathLimit: map[string]map[string]int{}, UTF8: map[string]int{}, SeqLens: map[int]int{}}
+}
+
+// classifyPath files a FileBegin path under (widest character in bytes; byte
+// length below/at/above the limit; character count below/at/above the limit).
+func (st *c18Stats) classifyPath(p string, outcome string) {
+	lim := transfer.VerifC18MaxRelPathLength
+	cmp := func(n int) string {
+		switch {
+		case n > lim:
+			return ">limit"
+		case n == lim:
+			return "=limit"
+		case n >= lim-3:
+			return "just-below-limit"
+		}
+		return "<limit-3"
+	}
+	widest := 1
+	if utf8.ValidString(p) {
+		for _, c := range p {
+			if l := utf8.RuneLen(c); l > widest {
+				widest = l
+			}
+		}
+	} else {
+		widest = 0
+	}
+	k := fmt.Sprintf("widest_char=%dB bytes:%s chars:%s", widest, cmp(len(p)), cmp(utf8.RuneCountInString(p)))
+	if st.PathLimit[k] == nil {
+		st.PathLimit[k] = map[string]int{}
+	}
+	st.PathLimit[k][outcome]++
 }
 
 func (st *c18Stats) kind(k string) *c18KindStat {
@@ -858,6 +1013,13 @@ func (st *c18Stats) merge(o *c18Stats) {
 	addMap(st.NameClasses, o.NameClasses)
 	addMap(st.ReadModes, o.ReadModes)
 	addMap(st.Rejected, o.Rejected)
+	addMap(st.RejectedClean, o.RejectedClean)
+	for k, v := range o.PathLimit {
+		if st.PathLimit[k] == nil {
+			st.PathLimit[k] = map[string]int{}
+		}
+		addMap(st.PathLimit[k], v)
+	}
 	addMap(st.UTF8, o.UTF8)
 	addMap(st.SeqLens, o.SeqLens)
 	st.SeqRecords += o.SeqRecords
@@ -967,12 +1129,20 @@ func c18RunShard(R *vk.Report, tier string, seed uint64, shard int, caseLog *os.
 		R.Eval()
 		s := &c18Stream{}
 		if err := c18Encode(s, rec); err != nil {
+			// whatever the encoder refuses must leave nothing on the wire (the peer would
+			// otherwise read a torn record and everything behind it out of frame)
 			lbl := rec.Kind + ":" + rec.Class
-			if len(s.buf) > 0 {
-				lbl += " (bytes already written)"
-			}
 			st.Rejected[lbl]++
 			R.Count("writer_rejected")
+			if len(s.buf) > 0 {
+				violate(lbl, fmt.Sprintf("the encoder refused this %s (%v) after it had already written %d bytes of the record to the stream", rec.Kind, err, len(s.buf)), rec,
+					map[string]any{"origin": origin, "bytes_on_the_wire": len(s.buf), "encoded_prefix": hex.EncodeToString(s.buf[:minInt(64, len(s.buf))])})
+				return
+			}
+			st.RejectedClean[lbl]++
+			if rec.Kind == kFileBegin {
+				st.classifyPath(rec.V.(transfer.FileBegin).RelPath, "refused_by_writer_nothing_written")
+			}
 			return
 		}
 		encLen := len(s.buf)
@@ -1045,6 +1215,13 @@ func c18RunShard(R *vk.Report, tier string, seed uint64, shard int, caseLog *os.
 		if !strings.HasPrefix(rec.Class, "rand") && ok {
 			st.Boundaries[rec.Kind+":"+rec.Class]++
 		}
+		if fb, isFB := rec.V.(transfer.FileBegin); isFB {
+			if ok {
+				st.classifyPath(fb.RelPath, "round_tripped")
+			} else {
+				st.classifyPath(fb.RelPath, "accepted_by_writer_but_violation")
+			}
+		}
 		if ok && sampled < 2 {
 			sampled++
 			R.Sample(map[string]any{"value": c18Describe(rec), "encoded_len": encLen, "read_mode": mode, "result": "equal, reader at EOF"})
@@ -1061,7 +1238,7 @@ func c18RunShard(R *vk.Report, tier string, seed uint64, shard int, caseLog *os.
 		checkValue(bnd[i], vk.NewRng(base^uint64(i)^0xd1), "boundaries", i)
 	}
 
-	// ---- 2. writer-side limits (not part of the verdict): what the writer refuses ----
+	// ---- 2. values the writer is expected to refuse: a refusal must leave nothing on the wire ----
 	if shard == 0 {
 		for i, rec := range []c18Rec{
 			{kFileBegin, "path=empty", transfer.FileBegin{RelPath: ""}},
@@ -1123,8 +1300,12 @@ func c18RunShard(R *vk.Report, tier string, seed uint64, shard int, caseLog *os.
 		for _, rec := range recs {
 			before := len(s.buf)
 			if err := c18Encode(s, rec); err != nil {
-				s.buf = s.buf[:before]
 				R.Count("writer_rejected_in_sequence")
+				if len(s.buf) != before { // a refused record must leave nothing on the wire
+					violate("seq:"+rec.Kind, fmt.Sprintf("the encoder refused record %d (%s) of a sequence (%v) after writing %d bytes of it; the following records are out of frame for the peer",
+						len(kept), rec.Kind, err, len(s.buf)-before), rec, map[string]any{"origin": map[string]any{"list": "sequences", "index": i, "shard": shard}})
+					s.buf = s.buf[:before] // keep checking the rest of the sequence
+				}
 				continue
 			}
 			kept = append(kept, rec)
@@ -1200,6 +1381,8 @@ func c18RunShard(R *vk.Report, tier string, seed uint64, shard int, caseLog *os.
 			{kFileDone, "err=65537", transfer.FileDone{StreamID: 1, ErrMsg: strings.Repeat("\x00", 65537)}},
 			{kResumeReq, "id=65536", transfer.ResumeRequest{StreamID: 1, FileID: strings.Repeat("\x00", 65536)}},
 			{kResume, "id=65536", transfer.FileResumeInfo{StreamID: 1, FileID: strings.Repeat("\x00", 65536)}},
+			{kFileDone, "err-runes=65535/w=2", transfer.FileDone{StreamID: 1, ErrMsg: strings.Repeat("é", 65535)}},
+			{kResumeReq, "id-runes=65535/w=3", transfer.ResumeRequest{StreamID: 1, FileID: strings.Repeat("日", 65535)}},
 		} {
 			if !begin("beyond-limit-probe", i, p.Kind, p.Class) {
 				continue
@@ -1241,7 +1424,7 @@ func runC18(e *Env) {
 	R := e.R
 	R.Rule = "one case = one value of a record type (or the header) encoded by the repository's writer into an in-memory stream and decoded by " +
 		"readControlMessage/readControlHeader, or one sequence of 1-50 records; distinct by (record type, encoded bytes) resp. by the bytes of the whole sequence; " +
-		"a value counts only if the writer accepted it (writer rejections such as empty or over-long paths are counted separately, not evaluated)"
+		"a value counts only if the writer accepted it; a value the writer refuses (empty, absolute, over-long paths, measured in bytes) must leave no byte in the stream and is counted separately"
 	nValues, nSeq := c18Sizes(e.Tier)
 	base := e.Seed ^ vk.HashStr("c18"+e.Tier)
 	st := newC18Stats()
@@ -1328,15 +1511,22 @@ func runC18(e *Env) {
 	}
 	R.SetExtra("per_record_type", st.PerKind)
 	var hit, missed []string
+	var refused []string
 	for k := range planned {
-		if st.Boundaries[k] >= 2 {
+		switch {
+		case st.Boundaries[k] >= 2:
 			hit = append(hit, k)
-		} else {
+		case st.RejectedClean[k] >= 2:
+			refused = append(refused, k)
+		default:
 			missed = append(missed, k)
 		}
 	}
 	sort.Strings(hit)
 	sort.Strings(missed)
+	sort.Strings(refused)
+	R.SetExtra("boundaries_refused_by_the_writer_with_nothing_on_the_wire", refused)
+	R.SetExtra("filebegin_paths_by_character_width_and_limit", st.PathLimit)
 	R.SetExtra("boundaries_round_tripped_in_both_read_modes", hit)
 	R.SetExtra("boundaries_not_round_tripped", missed)
 	R.SetExtra("name_classes_values", st.NameClasses)
@@ -1380,6 +1570,33 @@ func runC18(e *Env) {
 		}
 	}
 	R.Require(broken || unexpectedMiss == 0 || len(R.Violations) > 0, fmt.Sprintf("%d planned boundary values were not round-tripped and no violation explains it", unexpectedMiss))
+	// the byte/character boundary must have been observed from both sides for every character width
+	for _, w := range []int{1, 2, 3, 4} {
+		atLimit := fmt.Sprintf("widest_char=%dB bytes:=limit ", w)
+		over := fmt.Sprintf("widest_char=%dB bytes:>limit ", w)
+		nAt, nOver, nOverCharsWithin := 0, 0, 0
+		for k, m := range st.PathLimit {
+			n := 0
+			for _, c := range m {
+				n += c
+			}
+			if strings.HasPrefix(k, atLimit) {
+				nAt += n
+			}
+			if strings.HasPrefix(k, over) {
+				nOver += n
+				if !strings.HasSuffix(k, "chars:>limit") {
+					nOverCharsWithin += n
+				}
+			}
+		}
+		R.Require(broken || nAt >= 2, fmt.Sprintf("no FileBegin path of %d-byte characters with exactly the maximum byte length was evaluated", w))
+		R.Require(broken || nOver >= 2, fmt.Sprintf("no FileBegin path of %d-byte characters above the byte limit was offered to the writer", w))
+		if w >= 2 {
+			R.Require(broken || nOverCharsWithin >= 2,
+				fmt.Sprintf("no FileBegin path of %d-byte characters with more bytes than the limit but at most the limit in characters was offered to the writer", w))
+		}
+	}
 }
 
 func len2(m map[int]int) int {
